@@ -517,6 +517,17 @@ func (rt *Runtime) buildParty(pi int) error {
 				return err
 			}
 		}
+		// an empty side is a nil set or, for every other party, a set made from an empty list
+		if len(p.In) == 0 && pi%2 == 0 {
+			if inSet, err = argmapper.NewValueSet([]argmapper.Value{}); err != nil {
+				return err
+			}
+		}
+		if len(p.Out) == 0 && pi%2 == 0 {
+			if outSet, err = argmapper.NewValueSet(nil); err != nil {
+				return err
+			}
+		}
 		f, err := argmapper.BuildFunc(inSet, outSet, func(in, out *argmapper.ValueSet) error {
 			vals := make([]reflect.Value, len(p.In))
 			if len(p.In) > 0 {
@@ -693,7 +704,17 @@ func (rt *Runtime) buildParty(pi int) error {
 		return res
 	})
 	rt.raw[pi] = fn.Interface()
-	f, err := argmapper.NewFunc(rt.raw[pi], opts...)
+	var f *argmapper.Func
+	var err error
+	if (pi+len(rt.W.Parties))%3 == 2 {
+		// "the same as calling NewFunc repeatedly": every third party is made through the list constructor
+		var fl []*argmapper.Func
+		if fl, err = argmapper.NewFuncList([]interface{}{rt.raw[pi]}, opts...); err == nil {
+			f = fl[0]
+		}
+	} else {
+		f, err = argmapper.NewFunc(rt.raw[pi], opts...)
+	}
 	if err != nil {
 		return err
 	}
